@@ -8,17 +8,26 @@
     All statements quantify over EVERY label sequence [ls] (every interleaving
     of sender, relay thread, trace start/end and the traces' prompt loops).
 
-    FINDING.  The second sentence of the property ("commands addressed to ... a
-    future ... prompt are discarded without being executed") is FALSE for the
-    code as it is: a command addressed to a prompt its trace has not opened yet
-    stays in the trace's queue and is executed when that prompt opens
-    (C07_decoys_discarded_refuted, C07_no_disturbance_refuted; reproduced on
-    the real code by harness/props/c07.py, signature future-command-executed).
-    The _partial theorems classify a command from its arrival in the queue
-    on instead of at the moment it is sent; the three other classes of the
-    property text (already answered, another trace's, non-existent) hold at
-    full strength. *)
+    TWO LEVELS.
+    * CHILD level (Prompt/Model.v: queue_in, relay thread, per-trace queues,
+      the Prompt.prompt loop): theorems about EVERY sequence of child labels,
+      whoever puts commands into queue_in.  At this level a command addressed
+      to a prompt number that has not been issued yet IS executed when that
+      prompt opens (C07_decoys_discarded_refuted, C07_no_disturbance_refuted:
+      child level only); the _partial forms and the delivery theorems say what
+      holds.
+    * SYSTEM level (Prompt/System.v: the child composed with the main process'
+      filter -- context.open_prompts maintained from the relayed OnStartPrompt /
+      OnEndPrompt events, CommandSender.send_command forwards a command only
+      for a prompt in that set; added in /repo by 5be87b5): the C07_system_*
+      theorems, about EVERY sequence of system labels.  The only sender is the
+      API, every forwarded command is addressed to an issued prompt
+      (C07_system_no_future_queued), so the child-level refutation cannot
+      occur and the property holds at full strength
+      (C07_system_decoys_discarded).  The three code facts the filter model
+      rests on are pinned by translate/prompt_filter.py (Gen/PromptFilter.v). *)
 From NL Require Import Prompt.Model Prompt.Hist Prompt.Spec Prompt.Inv Prompt.Once Prompt.Erase Prompt.Deliver.
+From NL Require Import Prompt.System Prompt.SysProofs.
 Open Scope Z_scope.
 
 (** the command that closes prompt (t, p) is a sent command carrying exactly
@@ -34,7 +43,8 @@ Theorem C07_exactly_once : forall ls,
   NoDup (exec_ids (trace ls)) /\ NoDup (exec_prompts (trace ls)).
 Proof. exact exec_once. Qed.
 
-(** full strength (classification when sent, as in the property text): REFUTED *)
+(** CHILD LEVEL ONLY (excluded at system level by C07_system_no_future_queued):
+    full strength (classification when sent) is refuted for an arbitrary sender *)
 Definition refuting_run : list label :=
   [StartTrace 1; OpenPrompt 1; Send (mkCmd 1 1 1); Relay; Take 1;
    Send (mkCmd 1 2 999); Relay; OpenPrompt 1; Take 1;
@@ -77,7 +87,7 @@ Theorem C07_nonexistent_discarded : forall ls i c,
   ~ In i (exec_ids (trace ls)).
 Proof. exact nonexistent_discarded. Qed.
 
-(** deleting the send-time decoys changes what is executed: REFUTED *)
+(** CHILD LEVEL ONLY: deleting the send-time decoys changes what is executed *)
 Theorem C07_no_disturbance_refuted :
   exists ls D, (forall i, D i = true -> decoy_at_send (trace ls) i) /\
                vexecs (trace (erase D (trace ls))) <> vexecs (trace ls).
@@ -197,6 +207,72 @@ Proof.
   - vm_compute. repeat split; reflexivity.
 Qed.
 
+(** ================= the composed system (child + main-process filter) *)
+
+(** (a) every command the main process forwards carries a prompt number the
+    child has already issued *)
+Theorem C07_system_no_future_queued : forall sls, no_future_queued (ctrace sls).
+Proof. exact system_no_future_queued. Qed.
+
+(** hence, with NO hypothesis: an open prompt whose answer has been relayed closes ... *)
+Theorem C07_system_answered_prompt_closes : forall sls t n i c,
+  s_open (final (sproj sls)) t = Some n ->
+  In i (relayed (ctrace sls)) -> nth_error (sends (ctrace sls)) i = Some c ->
+  c_trace c = t -> c_prompt c = n ->
+  exists q front j cj back tail,
+    s_map (final (sproj sls)) t = Some q /\ q = front ++ (j, cj) :: back /\
+    c_trace cj = t /\ c_prompt cj = n /\ (forall j' d, In (j', d) front -> c_prompt d <> n) /\
+    let ls' := sproj sls ++ repeat (Take t) (S (length front)) in
+    trace ls' = ctrace sls ++ tail /\
+    map snd tail = map (discard_out n) front ++ [OExec n j cj] /\
+    s_open (final ls') t = None /\ In n (exec_prompts (trace ls')) /\
+    frame t (final (sproj sls)) (final ls').
+Proof. intros sls t n i c. exact (answered_prompt_closes (sproj sls) t n i c (system_no_future_queued sls)). Qed.
+
+(** ... and every command that closes a prompt reached the queue while that prompt was open *)
+Theorem C07_system_executed_arrived_while_open : forall sls pre1 i mid t n c post,
+  ctrace sls = pre1 ++ (Relay, ORelayed i) :: mid ++ (Take t, OExec n i c) :: post ->
+  open_in pre1 t = Some n.
+Proof. intros sls pre1 i mid t n c post. exact (executed_arrived_while_open (sproj sls) pre1 i mid t n c post (system_no_future_queued sls)). Qed.
+
+(** (b) full strength: an API call made while the addressed prompt is not open
+    in the child (already answered, not yet issued, another trace's, unknown
+    trace; [l1] = the system labels performed before the call) is dropped by the
+    main process or, if forwarded, never executed *)
+Theorem C07_system_decoys_discarded : forall sls pre c o post,
+  strace sls = pre ++ (SApi c, o) :: post ->
+  forall l1, pre = strace l1 ->
+  open_in (ctrace l1) (c_trace c) <> Some (c_prompt c) ->
+  o = SDropped \/ exists i, o = SForwarded i /\ ~ In i (exec_ids (ctrace sls)).
+Proof. exact system_decoys_discarded. Qed.
+
+(** each prompt is closed by exactly one command, addressed to it
+    (C07_exactly_once_addressed, C07_exactly_once on [ctrace sls]), and that
+    command was sent while the main process saw the prompt open *)
+Theorem C07_system_forwarded_seen_open : forall sls pre c i post,
+  strace sls = pre ++ (SApi c, SForwarded i) :: post ->
+  In (c_trace c, c_prompt c) (seen_open pre).
+Proof. exact forwarded_seen_open. Qed.
+
+(** (d) the history of the old finding replayed in the composed system:
+    ('next', prompt 1), ('step', prompt 2), then a command for prompt 3 while
+    prompt 2 is open -- the third is dropped by the main process; prompt 3 is
+    closed by its own answer *)
+Definition ex_system : list slabel :=
+  [SChild (StartTrace 1); SChild (OpenPrompt 1); SMain; SApi (mkCmd 1 1 1); SChild Relay; SChild (Take 1); SMain;
+   SChild (OpenPrompt 1); SMain; SApi (mkCmd 1 2 2); SApi (mkCmd 1 3 999);
+   SChild Relay; SChild (Take 1); SChild Relay; SMain; SChild (OpenPrompt 1); SChild (Take 1); SMain;
+   SApi (mkCmd 1 3 1); SChild Relay; SChild (Take 1)].
+
+Example C07_example_system :
+  map snd (strace ex_system) =
+  [SOut OStarted; SOut (OOpened 1); SSaw (MStart 1 1); SForwarded 0; SOut (ORelayed 0); SOut (OExec 1 0 (mkCmd 1 1 1)); SSaw (MEnd 1 1);
+   SOut (OOpened 2); SSaw (MStart 1 2); SForwarded 1; SDropped;
+   SOut (ORelayed 1); SOut (OExec 2 1 (mkCmd 1 2 2)); SOut OIdle; SSaw (MEnd 1 2); SOut (OOpened 3); SOut OBlocked; SSaw (MStart 1 3);
+   SForwarded 2; SOut (ORelayed 2); SOut (OExec 3 2 (mkCmd 1 3 1))] /\
+  vexecs (ctrace ex_system) = [(1, 1, mkCmd 1 1 1); (1, 2, mkCmd 1 2 2); (1, 3, mkCmd 1 3 1)].
+Proof. vm_compute. split; reflexivity. Qed.
+
 (** the assertion `pdb_command.trace_no == trace_no` in Prompt.prompt never fails *)
 Theorem C07_no_assertion_failure : forall ls l i, ~ In (l, OAssert i) (trace ls).
 Proof. exact no_assertion_failure. Qed.
@@ -234,3 +310,8 @@ Print Assumptions C07_genuine_answer_executed.
 Print Assumptions C07_answered_prompt_closes.
 Print Assumptions C07_executed_arrived_while_open.
 Print Assumptions C07_no_future_queued_is_needed.
+Print Assumptions C07_system_no_future_queued.
+Print Assumptions C07_system_answered_prompt_closes.
+Print Assumptions C07_system_executed_arrived_while_open.
+Print Assumptions C07_system_decoys_discarded.
+Print Assumptions C07_system_forwarded_seen_open.
